@@ -3,6 +3,9 @@ package sidetree
 import (
 	"errors"
 
+	docdid "github.com/trustbloc/did-go/doc/did"
+	"github.com/trustbloc/did-go/doc/did/endpoint"
+
 	"github.com/trustbloc/sidetree-go/pkg/api/operation"
 	"github.com/trustbloc/sidetree-go/pkg/api/protocol"
 	gen "github.com/trustbloc/sidetree-go/pkg/internal/verifgen"
@@ -67,6 +70,20 @@ func c08HasKey(d map[string]interface{}, id string) bool {
 	return false
 }
 
+// c08Service: the document's service with the given id has exactly the requested type, endpoint, recipient keys and
+// routing keys.
+func c08Service(d map[string]interface{}, id, typ, uri string, recipient, routing []string) bool {
+	svcs, _ := d["service"].([]interface{})
+	for _, e := range svcs {
+		m, ok := e.(map[string]interface{})
+		if !ok || m["id"] != id {
+			continue
+		}
+		return m["type"] == typ && m["serviceEndpoint"] == uri && verifrt.JSONEqual(m["recipientKeys"], recipient) && verifrt.JSONEqual(m["routingKeys"], routing)
+	}
+	return false
+}
+
 func c08Aka(d map[string]interface{}) []interface{} {
 	l, _ := d["alsoKnownAs"].([]interface{})
 	return l
@@ -103,8 +120,11 @@ func Harness_C08_SidetreeClient() {
 	withOrigin := verifrt.Choose("anchor-origin", 2) == 1
 	origin := verifrt.AnyAtom("origin")
 
+	svcURI := "https://svc.example/" + verifrt.AnyAtom("svc-uri")
+	recipient, routing := []string{"did:key:" + verifrt.AnyAtom("recipient")}, []string{"did:key:" + verifrt.AnyAtom("mediator1"), "did:key:" + verifrt.AnyAtom("mediator2")}
+	svc := &docdid.Service{ID: "svc1", Type: "DIDCommMessaging", ServiceEndpoint: endpoint.NewDIDCommV1Endpoint(svcURI), RecipientKeys: recipient, RoutingKeys: routing}
 	copts := []create.Option{create.WithRecoveryPublicKey(&rec1.Priv.PublicKey), create.WithUpdatePublicKey(&upd1.Priv.PublicKey),
-		create.WithPublicKey(key1), create.WithAlsoKnownAs(aka1), create.WithMultiHashAlgorithm(code)}
+		create.WithPublicKey(key1), create.WithAlsoKnownAs(aka1), create.WithMultiHashAlgorithm(code), create.WithService(svc)}
 	if withOrigin {
 		copts = append(copts, create.WithAnchorOrigin(origin))
 	}
@@ -120,6 +140,7 @@ func Harness_C08_SidetreeClient() {
 	}
 	did := e.ns + ":" + cop.UniqueSuffix
 	st := e.step(&protocol.ResolutionModel{}, operation.TypeCreate, 100, "create")
+	verifrt.Assert(c08Service(st.Doc, "svc1", "DIDCommMessaging", svcURI, recipient, routing), "create through the Sidetree client installs the requested service with its endpoint, recipient keys and routing keys")
 	verifrt.Assert(c08HasKey(st.Doc, "key1") && len(c08Aka(st.Doc)) == 1 && c08Aka(st.Doc)[0] == aka1 &&
 		st.UpdateCommitment == gen.Commitment(upd1.JWK, code) && st.RecoveryCommitment == gen.Commitment(rec1.JWK, code) &&
 		(!withOrigin || st.AnchorOrigin == origin), "create through the Sidetree client yields the requested document, commitments and anchor origin")
@@ -127,8 +148,12 @@ func Harness_C08_SidetreeClient() {
 
 	_ = e.c.UpdateDID(did, update.WithSigner(c08Signer{upd1}), update.WithNextUpdatePublicKey(&upd2.Priv.PublicKey),
 		update.WithOperationCommitment(st.UpdateCommitment), update.WithMultiHashAlgorithm(code),
-		update.WithAddAlsoKnownAs(aka2), update.WithRemovePublicKey("key1"), update.WithAddPublicKey(key2))
+		update.WithAddAlsoKnownAs(aka2), update.WithRemovePublicKey("key1"), update.WithAddPublicKey(key2),
+		update.WithRemoveService("svc1"), update.WithAddService(&docdid.Service{ID: "svc2", Type: "DIDCommMessaging",
+			ServiceEndpoint: endpoint.NewDIDCommV1Endpoint(svcURI), RecipientKeys: routing[:1], RoutingKeys: recipient}))
 	st = e.step(st, operation.TypeUpdate, 200, "update")
+	verifrt.Assert(c08Service(st.Doc, "svc2", "DIDCommMessaging", svcURI, routing[:1], recipient) && !c08Service(st.Doc, "svc1", "DIDCommMessaging", svcURI, recipient, routing),
+		"update through the Sidetree client removes and adds the requested services")
 	verifrt.Assert(!c08HasKey(st.Doc, "key1") && c08HasKey(st.Doc, "key2") && len(c08Aka(st.Doc)) == 2 &&
 		st.UpdateCommitment == gen.Commitment(upd2.JWK, code) && st.RecoveryCommitment == gen.Commitment(rec1.JWK, code),
 		"update through the Sidetree client yields the patched document and advances only the update commitment")
